@@ -17,13 +17,13 @@ import (
 	"context"
 	"encoding/binary"
 	"encoding/hex"
+	"encoding/json"
 	"fmt"
 	"io"
 	"math"
 	"os"
 	"regexp"
 	"runtime"
-	"runtime/pprof"
 	"sort"
 	"strconv"
 	"strings"
@@ -80,7 +80,7 @@ func i32(v int64) *node     { return L(append([]byte{0xd2}, be(4, uint64(v))...)
 func i64(v int64) *node     { return L(append([]byte{0xd3}, be(8, uint64(v))...)...) }
 func f32(v float32) *node   { return L(append([]byte{0xca}, be(4, uint64(math.Float32bits(v)))...)...) }
 func f64(v float64) *node   { return L(append([]byte{0xcb}, be(8, math.Float64bits(v))...)...) }
-func pfix(v int) *node      { return L(byte(v)) }      // 0..127
+func pfix(v int) *node      { return L(byte(v)) }       // 0..127
 func nfix(v int) *node      { return L(byte(int8(v))) } // -32..-1
 func mpNil() *node          { return L(0xc0) }
 func mpTrue() *node         { return L(0xc3) }
@@ -118,10 +118,10 @@ func mint(v int64) *node {
 	return i64(v)
 }
 
-func A(kids ...*node) *node            { return &node{k: 'A', kids: kids} }
-func AW(w int, kids ...*node) *node    { return &node{k: 'A', w: w, kids: kids} }
-func M(kids ...*node) *node            { return &node{k: 'M', kids: kids} }
-func MW(w int, kids ...*node) *node    { return &node{k: 'M', w: w, kids: kids} }
+func A(kids ...*node) *node             { return &node{k: 'A', kids: kids} }
+func AW(w int, kids ...*node) *node     { return &node{k: 'A', w: w, kids: kids} }
+func M(kids ...*node) *node             { return &node{k: 'M', kids: kids} }
+func MW(w int, kids ...*node) *node     { return &node{k: 'M', w: w, kids: kids} }
 func (n *node) with(kids []*node) *node { return &node{k: n.k, w: n.w, b: n.b, kids: kids} }
 
 func minWidth(cnt int) int {
@@ -1048,13 +1048,21 @@ type generator struct {
 	seen  map[string]struct{}
 	bases []base
 	fam   map[string]int
+	arena []byte
+	tmp   []byte
 }
 
 func (g *generator) add(fam string, lvl int, n *node) {
-	b := encode(n)
-	if _, dup := g.seen[string(b)]; dup {
+	g.tmp = enc(g.tmp[:0], n, nil)
+	if _, dup := g.seen[string(g.tmp)]; dup {
 		return
 	}
+	if len(g.arena)+len(g.tmp) > cap(g.arena) {
+		g.arena = make([]byte, 0, 1<<22)
+	}
+	at := len(g.arena)
+	g.arena = append(g.arena, g.tmp...)
+	b := g.arena[at:len(g.arena):len(g.arena)]
 	defer func() {
 		last := &g.bases[len(g.bases)-1]
 		switch {
@@ -1077,7 +1085,11 @@ func (g *generator) add(fam string, lvl int, n *node) {
 func goodCols() *node { return M(fixstr("time"), A(u32(t0s)), fixstr("v"), A(pfix(1))) }
 
 func generate(quick bool) *generator {
-	g := &generator{seen: map[string]struct{}{}, fam: map[string]int{}}
+	hint := 1 << 18
+	if !quick {
+		hint = 1 << 22
+	}
+	g := &generator{seen: make(map[string]struct{}, hint), bases: make([]base, 0, hint), fam: map[string]int{}}
 	full := elements(true)
 	reduced := elements(false)
 	key := fixstr
@@ -1152,7 +1164,11 @@ func generate(quick bool) *generator {
 	for _, xv := range []named{{"int", pfix(1)}, {"str", fixstr("s")}, {"bin", bin8("\x01")}, {"ext8", ext8(5, "x")},
 		{"fixext1", fixext1(5, 0)}, {"timestamp-ext", fixext4(-1, t0s)}, {"nil", mpNil()}, {"array", A(pfix(1), fixstr("s"))},
 		{"map:int-key", M(pfix(1), pfix(1))}, {"map:str+int-keys", M(fixstr("a"), pfix(1), pfix(1), pfix(1))},
-		{"map:array-key", M(A(), pfix(1))}, {"map:str-key", M(fixstr("a"), A(mpNil()))}, {"badutf8", fixstr("\xff")}} {
+		{"map:array-key", M(A(), pfix(1))}, {"map:str-key", M(fixstr("a"), A(mpNil()))}, {"badutf8", fixstr("\xff")},
+		{"map:nil-key", M(mpNil(), pfix(1))}} {
+		if quick && (xv.name == "fixext1" || xv.name == "map:array-key" || xv.name == "map:str-key" || xv.name == "bin") {
+			continue
+		}
 		P = append(P, pair{"extra=" + xv.name, key("extra"), xv.n})
 	}
 	maxP := 4
@@ -1176,7 +1192,10 @@ func generate(quick bool) *generator {
 	for _, nm := range []string{"v", "", "_x"} {
 		for _, cv := range []named{{"[1]", A(pfix(1))}, {"[1,2]", A(pfix(1), pfix(2))}, {"[str]", A(fixstr("a"))}, {"[nil]", A(mpNil())},
 			{"[]", A()}, {"5", pfix(5)}, {"ext", ext8(5, "x")}, {"nil", mpNil()}, {"map:str+int-keys", M(fixstr("a"), pfix(1), pfix(1), pfix(1))},
-			{"[1.5]", A(f64(1.5))}, {"arr16[1]", AW(1, pfix(1))}} {
+			{"[1.5]", A(f64(1.5))}, {"arr16[1]", AW(1, pfix(1))}, {"map:nil-key", M(mpNil(), pfix(1))}} {
+			if quick && (cv.name == "map:str+int-keys" || cv.name == "arr16[1]" || cv.name == "[1.5]" || cv.name == "map:nil-key" || (cv.name == "nil" && nm != "v")) {
+				continue
+			}
 			C = append(C, pair{nm + "=" + cv.name, key(nm), cv.n})
 		}
 	}
@@ -1325,23 +1344,16 @@ type tstate struct {
 
 func (s tstate) bytes() []byte { return append(encode(s.root), s.rest...) }
 
-// replacements that keep the construct family: scalars may replace anything; the canonical ext / map /
-// array only replace an ext / map / array (so a reduction never introduces a new kind of construct).
-var scalarCanon = [][]byte{{0x01}, {0xc0}, {0xc3}, {0xa1, 0x61}, {0xc4, 0x00}, {0xca, 0x3f, 0xc0, 0x00, 0x00}}
-var extCanon = []byte{0xd4, 0x05, 0x00}
-
-func isExt(n *node) bool {
-	return n.k == 'L' && (n.b[0] == 0xc7 || n.b[0] == 0xc8 || n.b[0] == 0xc9 || (n.b[0] >= 0xd4 && n.b[0] <= 0xd8))
-}
+// A value (never a map key) may be replaced by a canonical leaf that is shorter, or equally long and earlier in
+// this list. The list is ordered so that plain scalars are tried first; the ext leaf comes last, so a value
+// the generic decoder refuses (unknown ext, un-decodable nested map) reduces to the smallest such value.
+var scalarCanon = [][]byte{{0x01}, {0xc0}, {0xc3}, {0xa1, 0x61}, {0xc4, 0x00}, {0xd4, 0x05, 0x00}, {0xca, 0x3f, 0xc0, 0x00, 0x00}}
 
 func rank(b []byte) int {
 	for i, c := range scalarCanon {
 		if bytes.Equal(b, c) {
 			return i
 		}
-	}
-	if bytes.Equal(b, extCanon) {
-		return len(scalarCanon)
 	}
 	return 1 << 20
 }
@@ -1369,18 +1381,19 @@ func candidates(s tstate) []tstate {
 		out = append(out, tstate{s.root, nil})
 	}
 	type loc struct {
-		n    *node
-		path []int
+		n     *node
+		path  []int
+		isKey bool
 	}
 	var locs []loc
-	var walk func(n *node, path []int)
-	walk = func(n *node, path []int) {
-		locs = append(locs, loc{n, append([]int{}, path...)})
+	var walk func(n *node, path []int, isKey bool)
+	walk = func(n *node, path []int, isKey bool) {
+		locs = append(locs, loc{n, append([]int{}, path...), isKey})
 		for i, k := range n.kids {
-			walk(k, append(path, i))
+			walk(k, append(path, i), n.k == 'M' && i%2 == 0)
 		}
 	}
-	walk(s.root, nil)
+	walk(s.root, nil, false)
 	mk := func(path []int, repl func(*node) []*node) {
 		r := rebuild(s.root, path, repl)
 		if len(r) == 1 {
@@ -1429,6 +1442,15 @@ func candidates(s tstate) []tstate {
 			}
 		}
 	}
+	// 1b. a container replaced by one of its children
+	for _, l := range locs {
+		if l.n.k != 'L' && !l.isKey && len(l.path) > 0 {
+			for i := range l.n.kids {
+				kid := l.n.kids[i]
+				mk(l.path, func(*node) []*node { return []*node{kid} })
+			}
+		}
+	}
 	// 2. narrower headers
 	for _, l := range locs {
 		if l.n.k != 'L' && l.n.w > 0 {
@@ -1451,8 +1473,64 @@ func candidates(s tstate) []tstate {
 			}
 		}
 	}
-	// 3. family-preserving replacements by canonical simpler constructs
+	// 2b. a duplicated map key spelled differently (keeps the entry, drops the duplication)
 	for _, l := range locs {
+		if l.n.k != 'M' {
+			continue
+		}
+		for i := 0; i < len(l.n.kids); i += 2 {
+			dup := false
+			for j := 0; j < len(l.n.kids); j += 2 {
+				if j != i && bytes.Equal(encode(l.n.kids[i]), encode(l.n.kids[j])) {
+					dup = true
+				}
+			}
+			if _, isStr := fixstrVal(l.n.kids[i]); dup && isStr {
+				mk(append(append([]int{}, l.path...), i), func(*node) []*node { return []*node{fixstr("zq")} })
+			}
+		}
+	}
+	// 2c. payload bytes of a leaf (number / float bytes, str8+/bin/ext data) replaced by 00, 01 or 80 when that makes
+	//     the leaf byte-wise smaller (collapses e.g. every uint64 above 2^63 to cf 80 00..00)
+	for _, l := range locs {
+		if l.n.k != 'L' || len(l.n.b) < 2 {
+			continue
+		}
+		c := l.n.b[0]
+		from := 1
+		switch {
+		case c >= 0xa0 && c <= 0xbf:
+			continue // fixstr: handled by renaming
+		case c == 0xc4 || c == 0xd9:
+			from = 2
+		case c == 0xc5 || c == 0xda:
+			from = 3
+		case c == 0xc6 || c == 0xdb:
+			from = 5
+		case c == 0xc7:
+			from = 3
+		case c == 0xc8:
+			from = 4
+		case c == 0xc9:
+			from = 6
+		case c >= 0xd4 && c <= 0xd8:
+			from = 2
+		}
+		for i := from; i < len(l.n.b); i++ {
+			for _, r := range []byte{0x00, 0x01, 0x80} {
+				if r < l.n.b[i] {
+					nb := append([]byte{}, l.n.b...)
+					nb[i] = r
+					mk(l.path, func(*node) []*node { return []*node{L(nb...)} })
+				}
+			}
+		}
+	}
+	// 3. values replaced by canonical leaves
+	for _, l := range locs {
+		if l.isKey || len(l.path) == 0 {
+			continue
+		}
 		cur := encode(l.n)
 		try := func(c []byte) {
 			if len(c) < len(cur) || (len(c) == len(cur) && rank(c) < rank(cur)) {
@@ -1463,19 +1541,16 @@ func candidates(s tstate) []tstate {
 		for _, c := range scalarCanon {
 			try(c)
 		}
-		if isExt(l.n) {
-			try(extCanon)
-		}
 	}
 	return out
 }
 
-// normalisations are tried only at a removal/replacement fixpoint; they do not shrink the body, they move it
-// to a canonical representative: (a) every string other than the protocol words renamed, in order of first
-// appearance, to a, b, c...; (b) the pairs of every map sorted by encoded key (stable, so duplicate keys keep
-// their relative order). Each is kept only if the same difference persists.
-var protocolWords = map[string]bool{"m": true, "columns": true, "time": true, "batch": true, "t": true, "h": true, "f": true, "fields": true, "tags": true}
-
+// canonicalise moves a reduction fixpoint to a canonical representative of its class, so that bodies which
+// differ only in the spelling of irrelevant names or in the order of map entries get ONE signature:
+//  1. find the "free" strings: those whose every occurrence can be renamed to a fresh name with the same
+//     difference persisting (protocol words the difference depends on, e.g. m / columns, are not free);
+//  2. among all permutations of the entries of every map (free strings renamed a, b, c... in order of first
+//     appearance), take the byte-wise smallest body on which the same difference persists.
 func fixstrVal(n *node) (string, bool) {
 	if n.k == 'L' && n.b[0] >= 0xa0 && n.b[0] <= 0xbf {
 		return string(n.b[1:]), true
@@ -1494,64 +1569,138 @@ func mapTree(n *node, f func(*node) *node) *node {
 	return f(n.with(kids))
 }
 
-func normalisations(s tstate) []tstate {
-	var out []tstate
-	// (a) rename
+func renameAll(root *node, ren map[string]string) *node {
+	return mapTree(root, func(n *node) *node {
+		if v, ok := fixstrVal(n); ok {
+			if nv, ok := ren[v]; ok {
+				return fixstr(nv)
+			}
+		}
+		return n
+	})
+}
+
+func renameFree(root *node, free map[string]bool) *node {
+	ren := map[string]string{}
+	next := 0
+	mapTree(root, func(n *node) *node {
+		if v, ok := fixstrVal(n); ok && free[v] {
+			if _, done := ren[v]; !done {
+				ren[v] = string(rune('a' + next))
+				next++
+			}
+		}
+		return n
+	})
+	// two-step so that swapping names (a<->b) is well defined
+	tmp := map[string]string{}
+	back := map[string]string{}
+	for k, v := range ren {
+		tmp[k] = "\x00" + v
+		back["\x00"+v] = v
+	}
+	return renameAll(renameAll(root, tmp), back)
+}
+
+func permutations(n int) [][]int {
+	if n == 0 {
+		return [][]int{{}}
+	}
+	var out [][]int
+	for _, p := range permutations(n - 1) {
+		for pos := 0; pos <= len(p); pos++ {
+			q := append(append(append([]int{}, p[:pos]...), n-1), p[pos:]...)
+			out = append(out, q)
+		}
+	}
+	return out
+}
+
+// orderings returns every tree obtained by permuting the entries of every map (maps with more than 4 entries
+// are left alone; the product is capped).
+func orderings(n *node) []*node {
+	if n.k == 'L' {
+		return []*node{n}
+	}
+	kidAlts := make([][]*node, len(n.kids))
+	total := 1
+	for i, k := range n.kids {
+		kidAlts[i] = orderings(k)
+		total *= len(kidAlts[i])
+		if total > 512 {
+			return []*node{n}
+		}
+	}
+	var combos [][]*node
+	var rec func(i int, cur []*node)
+	rec = func(i int, cur []*node) {
+		if i == len(kidAlts) {
+			combos = append(combos, append([]*node{}, cur...))
+			return
+		}
+		for _, a := range kidAlts[i] {
+			rec(i+1, append(cur, a))
+		}
+	}
+	rec(0, nil)
+	var out []*node
+	for _, kids := range combos {
+		if n.k == 'M' && len(kids) >= 4 && len(kids) <= 8 {
+			for _, p := range permutations(len(kids) / 2) {
+				pk := make([]*node, 0, len(kids))
+				for _, i := range p {
+					pk = append(pk, kids[2*i], kids[2*i+1])
+				}
+				out = append(out, n.with(pk))
+			}
+		} else {
+			out = append(out, n.with(kids))
+		}
+		if len(out) > 2048 {
+			return []*node{n}
+		}
+	}
+	return out
+}
+
+func canonicalise(s tstate, same func([]byte) bool) tstate {
 	var order []string
 	seen := map[string]bool{}
 	mapTree(s.root, func(n *node) *node {
-		if v, ok := fixstrVal(n); ok && !protocolWords[v] && !seen[v] {
+		if v, ok := fixstrVal(n); ok && !seen[v] {
 			seen[v] = true
 			order = append(order, v)
 		}
 		return n
 	})
-	if len(order) <= 20 {
-		ren := map[string]string{}
-		for i, v := range order {
-			ren[v] = string(rune('a' + i))
-		}
-		changed := false
-		r := mapTree(s.root, func(n *node) *node {
-			if v, ok := fixstrVal(n); ok {
-				if nv, ok := ren[v]; ok && nv != v {
-					changed = true
-					return fixstr(nv)
-				}
-			}
-			return n
-		})
-		if changed {
-			out = append(out, tstate{r, s.rest})
+	free := map[string]bool{}
+	for _, v := range order {
+		c := tstate{renameAll(s.root, map[string]string{v: "zq"}), s.rest}
+		if same(c.bytes()) {
+			free[v] = true
 		}
 	}
-	// (b) sort pairs
-	changed := false
-	r := mapTree(s.root, func(n *node) *node {
-		if n.k != 'M' || len(n.kids) < 4 {
-			return n
-		}
-		type pr struct{ k, v *node }
-		var ps []pr
-		for i := 0; i+1 < len(n.kids); i += 2 {
-			ps = append(ps, pr{n.kids[i], n.kids[i+1]})
-		}
-		sorted := sort.SliceIsSorted(ps, func(i, j int) bool { return bytes.Compare(encode(ps[i].k), encode(ps[j].k)) < 0 })
-		if sorted {
-			return n
-		}
-		sort.SliceStable(ps, func(i, j int) bool { return bytes.Compare(encode(ps[i].k), encode(ps[j].k)) < 0 })
-		kids := make([]*node, 0, len(n.kids))
-		for _, p := range ps {
-			kids = append(kids, p.k, p.v)
-		}
-		changed = true
-		return n.with(kids)
-	})
-	if changed {
-		out = append(out, tstate{r, s.rest})
+	type cand struct {
+		st tstate
+		b  []byte
 	}
-	return out
+	var cands []cand
+	dedup := map[string]bool{}
+	for _, o := range orderings(s.root) {
+		st := tstate{renameFree(o, free), s.rest}
+		b := st.bytes()
+		if !dedup[string(b)] {
+			dedup[string(b)] = true
+			cands = append(cands, cand{st, b})
+		}
+	}
+	sort.Slice(cands, func(i, j int) bool { return bytes.Compare(cands[i].b, cands[j].b) < 0 })
+	for _, c := range cands {
+		if same(c.b) {
+			return c.st
+		}
+	}
+	return s
 }
 
 // byte-level ddmin for bodies that are not well-formed msgpack
@@ -1622,6 +1771,7 @@ func (m *minimiser) minimise(body []byte, kind string, deep bool) []byte {
 	}
 	st := tstate{root, append([]byte{}, body[used:]...)}
 	var visited []string
+	seenCanon := map[string]bool{}
 	fk := kind + "\x00"
 	for {
 		cur := st.bytes()
@@ -1646,12 +1796,12 @@ func (m *minimiser) minimise(body []byte, kind string, deep bool) []byte {
 			}
 		}
 		if !progressed {
-			for _, c := range normalisations(st) {
-				cb := c.bytes()
-				if !bytes.Equal(cb, cur) && kindOf(cb) == kind {
+			c := canonicalise(st, func(b []byte) bool { return kindOf(b) == kind })
+			if cb := c.bytes(); !bytes.Equal(cb, cur) {
+				if _, was := seenCanon[string(cb)]; !was { // canonicalise is idempotent; guard against ping-pong anyway
+					seenCanon[string(cb)] = true
 					st = c
 					progressed = true
-					break
 				}
 			}
 		}
@@ -1677,29 +1827,59 @@ func errClass(s string) string {
 }
 
 type failure struct {
-	body  []byte
-	kind  string
-	how   string // family or mutation kind
-	deep  bool
-	gerr  string
-	terr  string
-	thit  bool
+	body []byte
+	kind string
+	how  string // family or mutation kind
+	deep bool
+	gerr string
+	terr string
+	thit bool
 }
 
 func main() {
 	run := ev.Start("C02", "exploration")
 	quick := run.Quick()
-	if pf := os.Getenv("VERIF_CPUPROFILE"); pf != "" {
-		f, _ := os.Create(pf)
-		pprof.StartCPUProfile(f)
-		go func() { time.Sleep(20 * time.Second); pprof.StopCPUProfile(); f.Close(); os.Exit(3) }()
-	}
+	// 8 workers: the per-case cost is allocation-heavy (generic decode boxes every value) and the Go allocator/GC
+	// scales poorly beyond that on over-subscribed vCPUs; VERIF_WORKERS overrides.
 	nw := runtime.GOMAXPROCS(0)
-	if nw > 16 {
-		nw = 16
+	if nw > 8 {
+		nw = 8
+	}
+	if v, err := strconv.Atoi(os.Getenv("VERIF_WORKERS")); err == nil && v > 0 {
+		nw = v
 	}
 	if nw < 2 {
 		nw = 2
+	}
+
+	// --replay file: run one recorded body (replay.hex) through both modes in isolation and print what each did
+	if run.Replay != "" {
+		raw, err := os.ReadFile(run.Replay)
+		if err != nil {
+			ev.Unbound("cannot read replay file: " + err.Error())
+		}
+		var rf struct {
+			Signature string `json:"signature"`
+			Replay    struct {
+				Hex string `json:"hex"`
+			} `json:"replay"`
+		}
+		if err := json.Unmarshal(raw, &rf); err != nil || rf.Replay.Hex == "" {
+			ev.Unbound("replay file has no replay.hex")
+		}
+		body, err := hex.DecodeString(rf.Replay.Hex)
+		if err != nil {
+			ev.Unbound("replay.hex: " + err.Error())
+		}
+		w := newWorker()
+		v := w.eval(body, true)
+		out, _ := json.MarshalIndent(map[string]any{"payload": diagBody(body), "difference": v.kind, "typed": obsJSON(v.t), "generic": obsJSON(v.g)}, "", " ")
+		fmt.Println(string(out))
+		if v.kind != "" {
+			run.Violate(v.kind+"|"+rf.Replay.Hex, "replayed body still differs", map[string]any{"hex": rf.Replay.Hex})
+		}
+		run.Coverage["evaluations"] = 1
+		run.Finish()
 	}
 
 	// harness self-check: the hand encoder and the lenient parser agree (encode∘parse = id)
@@ -1727,52 +1907,6 @@ func main() {
 		}
 	}
 
-	if os.Getenv("VERIF_BENCH") != "" {
-		nb, _ := strconv.Atoi(os.Getenv("VERIF_BENCH"))
-		var wgb sync.WaitGroup
-		t0 := time.Now()
-		var tot int64
-		for i := 0; i < nb; i++ {
-			wgb.Add(1)
-			go func(i int) {
-				defer wgb.Done()
-				w := newWorker()
-				n := 0
-				for _, b := range gen.bases[i*500 : i*500+500] {
-					mutations(b.body, false, func(kind string, mb []byte) { w.eval(mb, false); n++ })
-				}
-				atomic.AddInt64(&tot, int64(n))
-			}(i)
-		}
-		wgb.Wait()
-		fmt.Printf("bench workers=%d evals=%d wall=%v per-eval-per-worker=%v\n", nb, tot, time.Since(t0), time.Since(t0)*time.Duration(nb)/time.Duration(tot))
-		os.Exit(0)
-	}
-	if os.Getenv("VERIF_SLOW") != "" {
-		w := newWorker()
-		type sl struct {
-			d time.Duration
-			h string
-		}
-		var all []sl
-		for _, b := range gen.bases[:40] {
-			mutations(b.body, true, func(kind string, mb []byte) {
-				t0 := time.Now()
-				w.eval(mb, false)
-				all = append(all, sl{time.Since(t0), kind + " " + hex.EncodeToString(mb)})
-			})
-		}
-		sort.Slice(all, func(i, j int) bool { return all[i].d > all[j].d })
-		var tot time.Duration
-		for _, a := range all {
-			tot += a.d
-		}
-		fmt.Println("cases", len(all), "total", tot)
-		for _, a := range all[:25] {
-			fmt.Println(a.d, a.h)
-		}
-		os.Exit(0)
-	}
 	tStart := time.Now()
 	order := make([]int, len(gen.bases))
 	for i := range order {
@@ -1859,7 +1993,9 @@ func main() {
 				}
 				fmu.Unlock()
 				// byte-level variants of every well-formed encoding of <= 40 bytes
-				if len(b.body) <= maxMutLen && mutEligible(b, quick) {
+				// (a base on which the two paths already disagree is reported as is; its byte variants would only
+				// re-report the same class thousands of times)
+				if v.kind == "" && len(b.body) <= maxMutLen && mutEligible(b, quick) {
 					atomic.AddInt64(&mutBases, 1)
 					mutations(b.body, overEligible(b, quick), func(kind string, mb []byte) {
 						t0 := time.Now()
@@ -1899,6 +2035,18 @@ func main() {
 			}
 		}
 		fmt.Printf("  explore wall %.1fs, raw failures %d, mutation bases %d\n", time.Since(tStart).Seconds(), len(fails), mutBases)
+		byHow := map[string]int{}
+		for _, f := range fails {
+			byHow[f.how+" "+f.kind]++
+		}
+		var hs []string
+		for h, n := range byHow {
+			hs = append(hs, fmt.Sprintf("%7d %s", n, h))
+		}
+		sort.Strings(hs)
+		for _, h := range hs {
+			fmt.Println("   ", h)
+		}
 	}
 	for k := range mutKinds {
 		if strings.HasPrefix(k, "ns:") {
@@ -2056,8 +2204,8 @@ func obsJSON(o obs) map[string]any {
 	return map[string]any{"stage": o.stage, "error": o.err, "fast_path_hit": o.typedHit, "records": o.nrec, "stored": bs}
 }
 
-// mutEligible selects the well-formed encodings that are byte-mutated. thorough: every one <=40 B except
-// the two largest families, which contribute their shorter sequences; quick: a fixed structural subset.
+// mutEligible selects, structurally, the well-formed encodings (<=40 B) that are byte-mutated: the shorter
+// sequences of every family (quick: a smaller cut of the same).
 func mutEligible(b base, quick bool) bool {
 	if quick {
 		switch {
@@ -2084,14 +2232,15 @@ func mutEligible(b base, quick bool) bool {
 		}
 		return false
 	}
-	if strings.HasPrefix(b.fam, "F6:") {
-		return b.lvl < 200
-	}
 	switch {
+	case strings.HasPrefix(b.fam, "F1:"), strings.HasPrefix(b.fam, "F2:"):
+		return b.lvl <= 2
 	case strings.HasPrefix(b.fam, "F3:"):
-		return len(b.body) <= 34
+		return b.lvl <= 2 || (b.lvl == 3 && len(b.body) <= 28)
 	case strings.HasPrefix(b.fam, "F4:"):
-		return len(b.body) <= 30
+		return b.lvl <= 2 || (b.lvl == 3 && len(b.body) <= 24)
+	case strings.HasPrefix(b.fam, "F6:"):
+		return b.lvl < 200 // no 32-bit counts among the substituted bytes (each costs a 1M-element allocation)
 	}
 	return true
 }
